@@ -341,7 +341,9 @@ def enumerate_cases(tier, seed):
     cases += s3.neutral_cases()
     cases += s3.multi_clash_cases("AMBER", all_pairs=(tier != "quick"))
     cases += s3.gap_cases("AMBER", ("default", "noopt"))
-    cases += s3.rebuilt_clash_cases("AMBER")
+    cases += s3.rebuilt_clash_cases("AMBER", opts=("default", "nodebump",
+                                                   "nodebump_noopt"))
+    cases += s3.asym_acid_cases()
     wfiles = (["1AJJ.pdb", "1BX8.pdb", "cterm_hid.pdb"] if tier == "quick"
               else None)
     cases += s3.window_cases("AMBER", wfiles)
